@@ -1,2 +1,2 @@
 #!/bin/bash
-cd /repo && git reset -q --hard HEAD && git clean -fdq && git status --short
+cd ${SEED_REPO:-/repo} && git reset -q --hard HEAD && git clean -fdq && git status --short
